@@ -786,7 +786,7 @@ func earlyFactoryTable(c *core.Ctx, l *lifecycleRoles, maxLen int) (rs rows, run
 					return absint.Bool(hasIA) // registration sets the flag when such a processor exists (checked structurally)
 				}
 				if sl, ok := typ.Underlying().(*types.Slice); ok && types.IsInterface(sl.Elem()) {
-					return dispatchList(c, fname, procs)
+					return dispatchList(c, t, fname, procs)
 				}
 				return nil
 			}
